@@ -515,7 +515,7 @@ func TestCheck(t *testing.T) {
 		if binary {
 			name = "random-binary"
 		}
-		r.Group(name, r.Pick(400, 6000), func(i int, rng *report.Rand) {
+		r.Group(name, r.Pick(400, 2000), func(i int, rng *report.Rand) {
 			L := uint64(1 + rng.Intn(8))
 			m := 4 + rng.Intn(20)
 			evs := make([]int, m)
